@@ -465,7 +465,11 @@ impl RefTerm {
                             i += 4;
                             rgb((r, g, b))?
                         }
-                        _ => return Err("38/48 without a well-formed colour".into()),
+                        // a lone 38/48 (not followed by the 2 or 5 selector) is an unknown
+                        // parameter: skipped without disturbing its neighbours
+                        Some(_) => continue,
+                        None if toks.get(i).is_none() => continue,
+                        None => continue, // followed by a ':' form: that one is handled on its own
                     };
                     if code == 38 {
                         pen = pen.with_fg(Some(color));
@@ -708,7 +712,10 @@ impl RefTerm {
                         for k in 0..=rc.min(cols - 1) {
                             self.grid[self.row].cells[k] = (' ', self.pen);
                         }
-                        ex.adopt_marks[self.row] = true;
+                        // the mark is only open when the whole row (tail included) went
+                        if rc >= cols - 1 {
+                            ex.adopt_marks[self.row] = true;
+                        }
                     }
                     2 => {
                         for r in 0..rows {
@@ -736,7 +743,9 @@ impl RefTerm {
                         for k in 0..=rc.min(cols - 1) {
                             self.grid[self.row].cells[k] = (' ', self.pen);
                         }
-                        ex.adopt_marks[self.row] = true;
+                        if rc >= cols - 1 {
+                            ex.adopt_marks[self.row] = true;
+                        }
                     }
                     2 => {
                         self.grid[self.row] = RRow::blank(cols, self.pen);
@@ -778,7 +787,7 @@ impl RefTerm {
                         k -= 1;
                     }
                 }
-                ex.adopt_marks[self.row] = true;
+                // "modify exactly the cells of their extent": the mark stays
             }
             Dch(n) => {
                 self.pending = false;
@@ -800,7 +809,7 @@ impl RefTerm {
                     for k in 0..cols {
                         self.grid[r].cells[k] = ('E', PenObs(0));
                     }
-                    ex.adopt_marks[r] = true;
+                    // only cells are modified: nothing is erased or deleted, marks stay
                 }
                 ex.col = ColCmp::Exact;
             }
